@@ -405,6 +405,11 @@ func (p *cparser) primary() *CExpr {
 			p.expect(")")
 			return e
 		}
+		if t.text == "[" && p.isOp("]") {
+			// a slice type used as an argument, e.g. unchangedPre([]uint64)
+			p.next()
+			return &CExpr{Kind: "ident", Name: "[]" + p.typeAtom(), Pos: t.pos}
+		}
 	}
 	p.p--
 	p.fail("unexpected token %q", t.text)
@@ -450,4 +455,33 @@ func (e *CExpr) subst(m map[string]*CExpr) *CExpr {
 		c.Args = append(c.Args, a.subst(m))
 	}
 	return &c
+}
+
+// typeAtom reads a type: {*|[]} ident{.ident}
+func (p *cparser) typeAtom() string {
+	var b strings.Builder
+	for {
+		if p.accept("*") {
+			b.WriteString("*")
+			continue
+		}
+		if p.isOp("[") {
+			p.next()
+			p.expect("]")
+			b.WriteString("[]")
+			continue
+		}
+		break
+	}
+	t := p.next()
+	if t.kind != "id" {
+		p.fail("expected type name")
+	}
+	b.WriteString(t.text)
+	for p.isOp(".") {
+		p.next()
+		n := p.next()
+		b.WriteString("." + n.text)
+	}
+	return b.String()
 }
